@@ -80,4 +80,11 @@ PROPS = {
         "trusted_base": ["a write is durable when state.Set / storage.Send returns (LevelDB and the file system are trusted); crash = the first k durable writes of the handler"],
         "assumptions": ["crashes inside API requests (operation results) and double crashes are not enumerated in this round"],
     },
+    "C14": {
+        "props": "Props/C14.v", "scenarios": ["c14"],
+        "rule": "a deterministic scheduler blocks two goroutines (one API request, one poller ProcessMessage, separate service stacks over one LevelDB state) at every state-store call and releases them according to a schedule; all schedules with at most 2 context switches (3 thorough) are run for two (request, message) pairs: an operation result against a message that creates no operation and against one that creates an operation. Each outcome (rounds, tombstones, offered operations, signatures, board as a multiset) is compared with both sequential orders. The pool-call subsequence of every schedule is replayed on the Coq small-step model (labels and pending set must agree).",
+        "exhaustive": {"quick": True, "thorough": True},
+        "trusted_base": ["atomicity of a single state.Get / state.Set (mutex in LevelDBState); the Go memory model and pre-emption inside a store call are not modelled"],
+        "assumptions": ["pairs covered in this round: operation result x {plain message, operation-producing message}; approve-participation, finish-reinit and state reset against the poller are not yet enumerated"],
+    },
 }
